@@ -4,6 +4,7 @@ import (
 	"bytes"
 	"crypto"
 	"fmt"
+	"os"
 	"reflect"
 	"sort"
 	"strings"
@@ -78,6 +79,14 @@ func indexString(idx *index.Index) string {
 	return ext + "\n" + strings.Join(ls, "\n")
 }
 
+func entryOrder(idx *index.Index) string {
+	var sb strings.Builder
+	for _, e := range idx.Entries {
+		fmt.Fprintf(&sb, "%s#%d ", e.Name, e.Stage)
+	}
+	return sb.String()
+}
+
 // compare returns "" when the cached view equals the decode of the bytes on disk.
 func (s *c20Sys) compare() string {
 	disk, derr := decodeDiskIndex(s.w)
@@ -95,6 +104,10 @@ func (s *c20Sys) compare() string {
 	if a != b {
 		return "Index() differs from the on-disk index: " + diffLines(a, b)
 	}
+	// same entries: they must also come in the order a decode gives them
+	if a, b := entryOrder(disk), entryOrder(view); a != b {
+		return "Index() returns the entries in another order than the on-disk index: " + fmt.Sprintf("[] want %q got %q", a, b)
+	}
 	// also deep-compare caches/extensions
 	d2, v2 := *disk, *view
 	d2.ModTime, v2.ModTime = d2.ModTime, d2.ModTime
@@ -105,7 +118,7 @@ func (s *c20Sys) compare() string {
 	return ""
 }
 
-func c20Ops(info repoInfo) []c20Op {
+func c20Ops(info repoInfo, gitIndex []byte) []c20Op {
 	wt := func(s *c20Sys) *git.Worktree {
 		w, err := s.repo.Worktree()
 		if err != nil {
@@ -211,6 +224,11 @@ func c20Ops(info repoInfo) []c20Op {
 			s.w.Touch("/wt/.git/index", old-4)
 			return nil
 		}},
+		{name: "ext:git writes a v4 index with TREE+REUC+EOIE", ext: true, do: func(s *c20Sys) error {
+			s.w.AdvanceClock(3)
+			s.w.WriteFile("/wt/.git/index", append([]byte{}, gitIndex...), false)
+			return nil
+		}},
 		{name: "ext:delete index", ext: true, do: func(s *c20Sys) error {
 			s.w.RemoveSetup("/wt/.git/index")
 			return nil
@@ -268,13 +286,14 @@ func runC20(c *fw.Ctx) {
 	depth := c.Pick(2, 3)
 	c.Bound("depth", depth)
 	base, info := twoRepoWorld(c)
-	ops := c20Ops(info)
+	gitIndex := c20GitIndex(c, base)
+	ops := c20Ops(info, gitIndex)
 	var names []string
 	for _, o := range ops {
 		names = append(names, o.name)
 	}
 	c.Bound("ops", names)
-	c.SetRule("one repository instance (its storage keeps the index cache) over mcfs, in two clock configurations (ticking: every mutating call gets a new timestamp; frozen: all of go-git's writes fall into the timestamp granule the index file already has, so only the size can invalidate the cache after go-git's own writes); all sequences up to depth over 16 worktree operations (Add of an existing/new path, Add(All), AddGlob, Remove, RemoveGlob, Move, Commit, Commit(All), Reset hard/mixed/merge, Restore(staged), sparse and plain Checkout, Status), one direct storer call (SetIndex, after which the caller keeps editing the value it passed) and 7 external rewrites of .git/index (new size+new mtime, same size+new mtime, larger/smaller size+same mtime, same size+OLDER mtime, file deleted, file truncated to an undecodable one); after EVERY step the value of Storer.Index() is compared, field by field and including extensions, with an independent decode of the bytes currently on disk; additionally for every sequence the LAST go-git operation is re-run with each of its filesystem calls failing once (EIO on mutating calls, on stat/open of worktree files and on stat/open/fstat/read of the index file itself) and the comparison is repeated after the failed call, once with the cache warmed by a prior Index() and once cold (the failing operation performs the first index read of the instance); distinct = distinct (clock configuration, sequence outcome, index content) pairs")
+	c.SetRule("one repository instance (its storage keeps the index cache) over mcfs, in two clock configurations (ticking: every mutating call gets a new timestamp; frozen: all of go-git's writes fall into the timestamp granule the index file already has, so only the size can invalidate the cache after go-git's own writes); all sequences up to depth over 16 worktree operations (Add of an existing/new path, Add(All), AddGlob, Remove, RemoveGlob, Move, Commit, Commit(All), Reset hard/mixed/merge, Restore(staged), sparse and plain Checkout, Status), one direct storer call (SetIndex, after which the caller keeps editing the value it passed) and 8 external rewrites of .git/index (a git-written version-4 index with cached-tree, resolve-undo and end-of-index-entry extensions, new size+new mtime, same size+new mtime, larger/smaller size+same mtime, same size+OLDER mtime, file deleted, file truncated to an undecodable one); after EVERY step the value of Storer.Index() is compared, field by field, in entry order and including extensions, with an independent decode of the bytes currently on disk; additionally for every sequence the LAST go-git operation is re-run with each of its filesystem calls failing once (EIO on mutating calls, on stat/open of worktree files and on stat/open/fstat/read of the index file itself) and the comparison is repeated after the failed call, once with the cache warmed by a prior Index() and once cold (the failing operation performs the first index read of the instance); distinct = distinct (clock configuration, sequence outcome, index content) pairs")
 	c.Assume("rewrites that change neither size nor mtime are outside the statement; Index.ModTime (in-memory stamp) is excluded from the comparison; mcfs clock ticks per mutating call")
 	seqs := fw.Seqs(len(ops), depth)
 	clocks := []string{"ticking", "frozen"}
@@ -413,6 +432,31 @@ func runC20(c *fw.Ctx) {
 // c20FaultSite: every mutating call, the stat/open of worktree files ("unreadable
 // file") and every call that reads the index file itself (stat, open, fstat, read):
 // the cache is keyed on the stat of that file and refilled from those reads.
+// c20GitIndex has real git produce, in a dump of the client repository, an index
+// file of version 4 that carries the cached-tree, resolve-undo and
+// end-of-index-entry extensions (a merge conflict resolved with git add).
+func c20GitIndex(c *fw.Ctx, base *mcfs.World) []byte {
+	dir := c.TempDir("c20git")
+	c.Must(base.Dump("/wt", dir), "dump client")
+	g := c.GitHome().In(dir).C("index.recordEndOfIndexEntries=true", "index.version=4", "user.name=V", "user.email=v@example.com")
+	g.MustRun("checkout", "-q", "-b", "side", "b")
+	c.Must(os.WriteFile(dir+"/a", []byte("a on side\n"), 0o644), "write")
+	g.MustRun("commit", "-q", "-a", "-m", "side")
+	g.Run("merge", "-q", "main") // conflicts in a
+	c.Must(os.WriteFile(dir+"/a", []byte("a resolved\n"), 0o644), "write")
+	g.MustRun("add", "a")
+	g.MustRun("write-tree")
+	g.MustRun("update-index", "--index-version", "4", "--force-write")
+	b, err := os.ReadFile(dir + "/.git/index")
+	c.Must(err, "read git index")
+	idx := &index.Index{}
+	c.Must(index.NewDecoder(bytes.NewReader(b), githash.New(crypto.SHA1)).Decode(idx), "decode git index")
+	if idx.Version != 4 || idx.Cache == nil || idx.ResolveUndo == nil || idx.EndOfIndexEntry == nil {
+		fw.Abort("git did not produce the wanted index: v=%d tree=%v reuc=%v eoie=%v", idx.Version, idx.Cache != nil, idx.ResolveUndo != nil, idx.EndOfIndexEntry != nil)
+	}
+	return b
+}
+
 func c20FaultSite(op *mcfs.Op) bool {
 	if op.Mutating {
 		return true
